@@ -23,6 +23,13 @@ package structs
 //@   pure
 //@ end
 
+// reads the expression tree and returns a fresh list of column names: ASSUMED
+// to write nothing (frame only; the tree walk itself is not under contract)
+//@ func (*ValueExpr).GetFields
+//@   assumed
+//@   pure
+//@ end
+
 // C02 (A AND B = intersection, A OR B = union), JoinRequest.  Proved below for
 // every request size (visited-set rule for ranges over Go maps): the blocks of
 // the joined request are exactly the intersection / union, and in the OR branch
@@ -94,4 +101,20 @@ package structs
 //@   ensures [or-searches-the-union-of-blocks] implies(op != And, forallkey(b, uint16, haskey(ssr.AllBlocksToSearch, b) == (old(haskey(ssr.AllBlocksToSearch, b)) || old(haskey(toJoin.AllBlocksToSearch, b)))))
 //@   ensures [or-adds-the-columns-of-tojoin] implies(op != And, forallkey(b, uint16, forallkey(c, string, implies(old(haskey(toJoin.AllBlocksToSearch, b)) && old(haskey(toJoin.CmiPassedCnames[b], c)), haskey(ssr.CmiPassedCnames, b) && haskey(ssr.CmiPassedCnames[b], c)))))
 //@   bounded structs/joinrequest_test.go Test_Bounded_JoinRequest blocks {0,1}, columns {a,b}, every pair of requests (25 x 25) and both operators (1250 inputs): blocks = intersection (AND) / union (OR), per block the union of the columns that passed the micro-index check
+//@ end
+
+// C09 (a sub-window answer is the restriction of the full-window answer):
+// metrics blocks are selected for a query window by the [LowTs, HighTs] range
+// recorded in their summary (CheckRangeOverLap).  UpdateTimeRange runs for
+// every ingested sample, so after it the range must cover the sample and stay
+// the tightest cover of what it covered before: BOTH bounds are updated
+// independently (the first sample of a fresh block — HighTs 0, LowTs MaxInt32 —
+// moves both).
+//@ func (*MBlockSummary).UpdateTimeRange
+//@   props C09
+//@   requires mbs != nil
+//@   modifies mbs.HighTs, mbs.LowTs
+//@   ensures [high-bound-is-the-maximum] mbs.HighTs == ite(ts > old(mbs.HighTs), ts, old(mbs.HighTs))
+//@   ensures [low-bound-is-the-minimum] mbs.LowTs == ite(ts < old(mbs.LowTs), ts, old(mbs.LowTs))
+//@   ensures [sample-is-covered] mbs.LowTs <= ts && ts <= mbs.HighTs
 //@ end
